@@ -79,6 +79,10 @@ pub struct World {
     pub spawner_abort: Vec<Option<tokio::task::AbortHandle>>,
     pub nsent: Vec<u32>,
     pub pids: HashMap<u64, String>,
+    /// spawner thread for thread-local actors (actors named "L"), created on first use
+    pub spawner: Option<ractor::thread_local::ThreadLocalActorSpawner>,
+    /// number of spawn calls of thread-local actors in flight (work the gate scheduler cannot see)
+    pub spawning: usize,
 }
 type W = Arc<Mutex<World>>;
 
@@ -117,9 +121,27 @@ pub struct ScriptActor {
     pub world: W,
 }
 
+#[derive(Clone)]
+pub struct Cfg {
+    pub idx: usize,
+    pub name: String,
+    pub script: Script,
+    pub world: W,
+}
+
 impl ScriptActor {
+    fn cfg(&self) -> Cfg {
+        Cfg { idx: self.idx, name: self.name.clone(), script: self.script.clone(), world: self.world.clone() }
+    }
     async fn run_ops(&self, kind: &str, ops: &[Op], myself: &ActorRef<LMsg>, extra: Vec<(String, Val)>) -> Result<(), ActorProcessingErr> {
-        let x = self.name.as_str();
+        run_ops(&self.cfg(), kind, ops, myself, extra).await
+    }
+}
+
+pub async fn run_ops(this: &Cfg, kind: &str, ops: &[Op], myself: &ActorRef<LMsg>, extra: Vec<(String, Val)>) -> Result<(), ActorProcessingErr> {
+    {
+        let self_ = this;
+        let x = self_.name.as_str();
         let mut kv = vec![kvs("k", kind)];
         kv.extend(extra);
         obs("obs.cb_enter", x, 0, kv);
@@ -138,14 +160,14 @@ impl ScriptActor {
                 }
                 Op::SendSelf => {
                     let n = {
-                        let mut w = self.world.lock().unwrap();
-                        if w.nsent[self.idx] >= 6 {
+                        let mut w = self_.world.lock().unwrap();
+                        if w.nsent[self_.idx] >= 6 {
                             drop(w);
                             obs("obs.tick", x, 0, vec![]);
                             continue;
                         }
-                        w.nsent[self.idx] += 1;
-                        w.nsent[self.idx]
+                        w.nsent[self_.idx] += 1;
+                        w.nsent[self_.idx]
                     };
                     let r = myself.send_message(LMsg(n));
                     obs("obs.send", x, i64::from(r.is_ok()), vec![kvi("m", n as i64)]);
@@ -203,10 +225,17 @@ impl Actor for ScriptActor {
         self.run_ops("handle", &ops, &myself, vec![kvi("m", m.0 as i64)]).await
     }
     async fn handle_supervisor_evt(&self, myself: ActorRef<LMsg>, e: SupervisionEvent, _: &mut ()) -> Result<(), ActorProcessingErr> {
+        let extra = sup_extra(&self.world, &e);
+        self.run_ops("handle_sup", &self.script.sup, &myself, extra).await
+    }
+}
+
+pub fn sup_extra(world: &W, e: &SupervisionEvent) -> Vec<(String, Val)> {
+    {
         let name_of = |c: &ActorCell| -> String {
-            self.world.lock().unwrap().pids.get(&c.get_id().pid()).cloned().unwrap_or_else(|| format!("p{}", c.get_id().pid()))
+            world.lock().unwrap().pids.get(&c.get_id().pid()).cloned().unwrap_or_else(|| format!("p{}", c.get_id().pid()))
         };
-        let extra = match &e {
+        match e {
             SupervisionEvent::ActorStarted(c) => vec![kvs("ek", "started"), kvs("about", &name_of(c)), kvi("hs", 0), kvs("reason", "")],
             SupervisionEvent::ActorTerminated(c, st, r) => vec![
                 kvs("ek", "terminated"),
@@ -217,8 +246,41 @@ impl Actor for ScriptActor {
             SupervisionEvent::ActorFailed(c, err) => vec![kvs("ek", "failed"), kvs("about", &name_of(c)), kvi("hs", 0), kvs("reason", &format!("{err}"))],
             SupervisionEvent::ProcessGroupChanged(_) => vec![kvs("ek", "inject"), kvs("about", "none"), kvi("hs", 0), kvs("reason", "")],
             _ => vec![kvs("ek", "other"), kvs("about", "none"), kvi("hs", 0), kvs("reason", "")],
-        };
-        self.run_ops("handle_sup", &self.script.sup, &myself, extra).await
+        }
+    }
+}
+
+/// The same scripted behaviour as a native thread-local actor (ractor::thread_local)
+#[derive(Default)]
+pub struct LocalScriptActor;
+impl ractor::thread_local::ThreadLocalActor for LocalScriptActor {
+    type Msg = LMsg;
+    type State = Cfg;
+    type Arguments = Cfg;
+    async fn pre_start(&self, myself: ActorRef<LMsg>, c: Cfg) -> Result<Cfg, ActorProcessingErr> {
+        {
+            let mut w = c.world.lock().unwrap();
+            w.pids.insert(myself.get_id().pid(), c.name.clone());
+            if w.cells[c.idx].is_none() {
+                w.cells[c.idx] = Some(myself.get_cell());
+            }
+        }
+        run_ops(&c, "pre_start", &c.script.pre, &myself, vec![]).await?;
+        Ok(c)
+    }
+    async fn post_start(&self, myself: ActorRef<LMsg>, c: &mut Cfg) -> Result<(), ActorProcessingErr> {
+        run_ops(c, "post_start", &c.script.post, &myself, vec![]).await
+    }
+    async fn post_stop(&self, myself: ActorRef<LMsg>, c: &mut Cfg) -> Result<(), ActorProcessingErr> {
+        run_ops(c, "post_stop", &c.script.pstop, &myself, vec![]).await
+    }
+    async fn handle(&self, myself: ActorRef<LMsg>, m: LMsg, c: &mut Cfg) -> Result<(), ActorProcessingErr> {
+        let ops: Vec<Op> = if c.script.handle.is_empty() { vec![Op::Tick] } else { c.script.handle[(m.0 as usize - 1) % c.script.handle.len()].clone() };
+        run_ops(c, "handle", &ops, &myself, vec![kvi("m", m.0 as i64)]).await
+    }
+    async fn handle_supervisor_evt(&self, myself: ActorRef<LMsg>, e: SupervisionEvent, c: &mut Cfg) -> Result<(), ActorProcessingErr> {
+        let extra = sup_extra(&c.world, &e);
+        run_ops(c, "handle_sup", &c.script.sup, &myself, extra).await
     }
 }
 
@@ -236,6 +298,10 @@ async fn do_spawn(sc: Arc<Scenario>, w: W, idx: usize, run_tag: String) {
     let sup_cell: Option<ActorCell> = spec.sup.and_then(|s| w.lock().unwrap().cells[s].clone());
     let x = spec.name.clone();
     let tname = Some(format!("{}@{}", spec.name, run_tag));
+    if spec.name == "L" {
+        do_spawn_local(spec, w, idx, sup_cell, tname).await;
+        return;
+    }
     if spec.sup.is_some() && sup_cell.is_none() {
         obs("obs.start_ret", &x, 0, vec![kvs("err", "no_supervisor")]);
         return;
@@ -282,6 +348,80 @@ async fn do_spawn(sc: Arc<Scenario>, w: W, idx: usize, run_tag: String) {
                 return;
             }
             (None, _) => ScriptActor::spawn(tname, actor, ()).await,
+        };
+        match r {
+            Ok((aref, h)) => {
+                let mut g = w.lock().unwrap();
+                g.pids.insert(aref.get_id().pid(), x.clone());
+                g.cells[idx] = Some(aref.get_cell());
+                g.loop_abort[idx] = Some(h.abort_handle());
+                g.loops[idx] = Some(h);
+                drop(g);
+                obs("obs.start_ret", &x, 1, vec![kvs("err", "")]);
+            }
+            Err(e) => obs("obs.start_ret", &x, 0, vec![kvs("err", spawn_err_kind(&e))]),
+        }
+    }
+}
+
+/// thread-local flavour: the actor lives on the spawner's own thread and runtime
+async fn do_spawn_local(spec: ActorSpec, w: W, idx: usize, sup_cell: Option<ActorCell>, tname: Option<String>) {
+    use ractor::thread_local::ThreadLocalActor;
+    let x = spec.name.clone();
+    if spec.sup.is_some() && sup_cell.is_none() {
+        obs("obs.start_ret", &x, 0, vec![kvs("err", "no_supervisor")]);
+        return;
+    }
+    let cfg = Cfg { idx, name: spec.name.clone(), script: spec.script.clone(), world: w.clone() };
+    let spawner = {
+        let mut g = w.lock().unwrap();
+        if g.spawner.is_none() {
+            g.spawner = Some(ractor::thread_local::ThreadLocalActorSpawner::new());
+        }
+        g.spawning += 1;
+        g.spawner.clone().unwrap()
+    };
+    struct Dec(W);
+    impl Drop for Dec {
+        fn drop(&mut self) {
+            self.0.lock().unwrap().spawning -= 1;
+        }
+    }
+    let _dec = Dec(w.clone());
+    obs("obs.spawn_call", &x, 0, vec![]);
+    if spec.instant {
+        let r = match sup_cell {
+            Some(sc) => LocalScriptActor::spawn_linked_instant(tname, cfg, sc, spawner),
+            None => LocalScriptActor::spawn_instant(tname, cfg, spawner),
+        };
+        match r {
+            Err(e) => obs("obs.start_ret", &x, 0, vec![kvs("err", spawn_err_kind(&e))]),
+            Ok((aref, join)) => {
+                {
+                    let mut g = w.lock().unwrap();
+                    g.pids.insert(aref.get_id().pid(), x.clone());
+                    g.cells[idx] = Some(aref.get_cell());
+                    g.spawner_abort[idx] = Some(join.abort_handle());
+                }
+                obs("obs.spawn_ret", &x, 1, vec![]);
+                match join.await {
+                    Ok(Ok(h)) => {
+                        {
+                            let mut g = w.lock().unwrap();
+                            g.loop_abort[idx] = Some(h.abort_handle());
+                            g.loops[idx] = Some(h);
+                        }
+                        obs("obs.start_ret", &x, 1, vec![kvs("err", "")]);
+                    }
+                    Ok(Err(e)) => obs("obs.start_ret", &x, 0, vec![kvs("err", spawn_err_kind(&e))]),
+                    Err(_) => obs("obs.start_ret", &x, 0, vec![kvs("err", "join_error")]),
+                }
+            }
+        }
+    } else {
+        let r = match sup_cell {
+            Some(sc) => LocalScriptActor::spawn_linked(tname, cfg, sc, spawner).await,
+            None => LocalScriptActor::spawn(tname, cfg, spawner).await,
         };
         match r {
             Ok((aref, h)) => {
@@ -417,7 +557,7 @@ const KEEP: &[&str] = &[
     "obs.cb_enter", "obs.cb_exit", "obs.tick", "obs.yield", "obs.resume", "obs.send", "obs.kill", "obs.stop", "obs.drain",
     "obs.inject", "obs.abort", "obs.monitor", "obs.unmonitor", "obs.status", "obs.join_begin", "obs.join_ret", "obs.spawn_call", "obs.spawn_ret", "obs.start_ret",
     "port.stop", "port.sup", "port.msg", "port.drain", "sig.handled", "guard.cleanup", "guard.done", "task.dropped",
-    "decode.dropped", "obs.end", "task.panicked",
+    "decode.dropped", "obs.end", "task.panicked", "tl.start",
 ];
 
 static RUN_SEQ: std::sync::atomic::AtomicU64 = std::sync::atomic::AtomicU64::new(0);
@@ -432,24 +572,22 @@ pub fn one_run(sc: &Scenario, ex: &mut Explorer, gen: Value) -> (Vec<Value>, Val
         spawner_abort: (0..n).map(|_| None).collect(),
         nsent: vec![0; n],
         pids: HashMap::new(),
+        spawner: None,
+        spawning: 0,
     }));
     let run_tag = format!("r{}", RUN_SEQ.fetch_add(1, std::sync::atomic::Ordering::SeqCst));
     let (sc2, w2, tag2) = (sc.clone(), w.clone(), run_tag.clone());
     let fin: Arc<Mutex<Vec<Value>>> = Arc::new(Mutex::new(vec![]));
     let (fin2, w4, sc4) = (fin.clone(), w.clone(), sc.clone());
-    let run = run_t(
-        ex,
-        3000,
-        0,
-        &mut NoBetween,
-        move || async move {
+    let has_local = sc.actors.iter().any(|a| a.name == "L");
+    let setup = move || async move {
             for (ci, ops) in sc2.clients.iter().enumerate() {
                 let (s3, w3, t3) = (sc2.clone(), w2.clone(), tag2.clone());
                 let ops = ops.clone();
                 let _ = ractor::concurrency::spawn_named(Some(&format!("client{ci}")), client(s3, w3, ops, t3));
             }
-        },
-        move || {
+    };
+    let at_end = move || {
             // final observation: status and links of every actor the scenario got hold of
             let g = w4.lock().unwrap();
             let mut f = fin2.lock().unwrap();
@@ -459,8 +597,21 @@ pub fn one_run(sc: &Scenario, ex: &mut Explorer, gen: Value) -> (Vec<Value>, Val
                                   "kids": c.get_children().len(), "sup": c.try_get_supervisor().is_some()}));
                 }
             }
-        },
-    );
+    };
+    let run = if has_local {
+        // thread-local actors run on the spawner's thread: real clock, settled = no spawn call in flight
+        let w5 = w.clone();
+        let r = crate::tdrv::run_t_real(ex, 3000, 25, setup, at_end, move || w5.lock().unwrap().spawning == 0);
+        // let the thread-local leftovers wind down (the scheduler is removed: they run freely now)
+        let cells: Vec<ActorCell> = w.lock().unwrap().cells.iter().flatten().cloned().collect();
+        for c in cells {
+            c.kill();
+        }
+        w.lock().unwrap().spawner = None;
+        r
+    } else {
+        run_t(ex, 3000, 0, &mut NoBetween, setup, at_end)
+    };
     // map: task id -> (actor, role) from task.new names; pid -> actor name
     let mut names = Names::default();
     let g = w.lock().unwrap();
@@ -483,6 +634,22 @@ pub fn one_run(sc: &Scenario, ex: &mut Explorer, gen: Value) -> (Vec<Value>, Val
                 let instant = idx.map(|i| sc.actors[i].instant).unwrap_or(false);
                 let role = if instant && *cnt == 1 { "spawner" } else { "loop" };
                 task_role.insert(e.obj, (actor, role.into()));
+            }
+        }
+    }
+    // an internal event about a pid the harness has not learned yet (thread-local start before
+    // pre_start ran) belongs to the actor whose spawn call the same task just announced
+    let mut last_spawn_call: HashMap<String, String> = HashMap::new();
+    for e in &run.events {
+        if e.a == "obs.spawn_call" {
+            if let Some((_, Val::S(x))) = e.kv.iter().find(|(k, _)| k == "x") {
+                last_spawn_call.insert(e.who.clone(), x.clone());
+            }
+        } else if e.a == "obs.start_ret" {
+            last_spawn_call.remove(&e.who);
+        } else if (e.a == "tl.start" || e.a == "guard.cleanup") && !names.pid.contains_key(&e.obj) {
+            if let Some(x) = last_spawn_call.get(&e.who) {
+                names.pid.insert(e.obj, x.clone());
             }
         }
     }
@@ -547,6 +714,10 @@ fn rand_ops(rng: &mut Rng, allow_fail: bool, selfops: bool) -> Vec<Op> {
 }
 
 pub fn rand_scenario(rng: &mut Rng) -> Scenario {
+    rand_scenario_flavour(rng, false)
+}
+
+pub fn rand_scenario_flavour(rng: &mut Rng, local: bool) -> Scenario {
     // S supervises A; sometimes B under A
     let three = rng.chance(1, 4);
     let mk_script = |rng: &mut Rng, fail: bool, selfops: bool| Script {
@@ -560,6 +731,11 @@ pub fn rand_scenario(rng: &mut Rng) -> Scenario {
         ActorSpec { name: "S".into(), sup: None, instant: false, helper: false, script: Script { sup: vec![Op::Tick], ..Default::default() } },
         ActorSpec { name: "A".into(), sup: Some(0), instant: rng.chance(1, 3), helper: rng.chance(1, 3), script: mk_script(rng, true, true) },
     ];
+    if local {
+        // the child under test is a native thread-local actor
+        actors[1].name = "L".into();
+    }
+    let three = three && !local;
     if three {
         actors.push(ActorSpec { name: "B".into(), sup: Some(1), instant: rng.chance(1, 4), helper: false, script: { let f = rng.chance(1, 3); mk_script(rng, f, false) } });
     }
@@ -682,6 +858,31 @@ pub fn micro_scenarios() -> Vec<Scenario> {
     ]
 }
 
+/// micro-scenarios with a thread-local child "L" (real clock: each run costs a few idle graces)
+pub fn micro_local() -> Vec<Scenario> {
+    let s = |sup: Vec<Op>| ActorSpec { name: "S".into(), sup: None, instant: false, helper: false, script: Script { sup, ..Default::default() } };
+    let l = |script: Script, instant: bool, helper: bool| ActorSpec { name: "L".into(), sup: Some(0), instant, helper, script };
+    let y = || vec![Op::Tick, Op::Yield, Op::Tick];
+    vec![
+        // failing start under a supervisor: Err, panic, kill during pre_start, spawner dropped
+        Scenario { actors: vec![s(vec![Op::Tick]), l(Script { pre: vec![Op::Tick, Op::Err], ..Default::default() }, false, false)],
+                   clients: vec![vec![COp::Spawn(0), COp::Spawn(1), COp::Status(0)]] },
+        Scenario { actors: vec![s(vec![Op::Tick]), l(Script { pre: vec![Op::Yield, Op::Panic], ..Default::default() }, false, false)],
+                   clients: vec![vec![COp::Spawn(0), COp::Spawn(1), COp::Status(0)]] },
+        Scenario { actors: vec![s(vec![Op::Tick]), l(Script { pre: y(), post: y(), ..Default::default() }, true, false)],
+                   clients: vec![vec![COp::Spawn(0), COp::Spawn(1), COp::Status(1)], vec![COp::Pause, COp::Kill(1)]] },
+        Scenario { actors: vec![s(vec![Op::Tick]), l(Script { pre: y(), ..Default::default() }, false, true)],
+                   clients: vec![vec![COp::Spawn(0), COp::Spawn(1), COp::Pause, COp::Status(0)], vec![COp::Pause, COp::AbortSpawner(1)]] },
+        // failures after start: post_start Err, handler panic, post_stop Err; stop / kill / drain
+        Scenario { actors: vec![s(vec![Op::Tick]), l(Script { post: vec![Op::Tick, Op::Err], handle: vec![vec![Op::Tick]], ..Default::default() }, false, false)],
+                   clients: vec![vec![COp::Spawn(0), COp::Spawn(1), COp::Send(1), COp::Send(1), COp::Stop(1), COp::Join(1)]] },
+        Scenario { actors: vec![s(vec![Op::Tick]), l(Script { handle: vec![y(), vec![Op::Panic]], pstop: vec![Op::Tick], ..Default::default() }, false, false)],
+                   clients: vec![vec![COp::Spawn(0), COp::Spawn(1), COp::Send(1), COp::Send(1), COp::Join(1)], vec![COp::Pause, COp::Stop(1)], vec![COp::Pause, COp::Kill(1)]] },
+        Scenario { actors: vec![s(vec![Op::Tick]), l(Script { handle: vec![vec![Op::Tick]], pstop: vec![Op::Yield, Op::Err], ..Default::default() }, false, false)],
+                   clients: vec![vec![COp::Spawn(0), COp::Spawn(1), COp::Send(1), COp::Drain(1), COp::Join(1)], vec![COp::Pause, COp::AbortLoop(1)]] },
+    ]
+}
+
 pub fn batch(out: &str, tier: &str, seed: u64) -> Value {
     let mut b = Batch::new(Some(out));
     let (dfs_cap, nrand, per) = if tier == "thorough" { (4000usize, 6000usize, 3usize) } else { (250usize, 700usize, 2usize) };
@@ -704,6 +905,42 @@ pub fn batch(out: &str, tier: &str, seed: u64) -> Value {
             if !ex.end_run() || n >= dfs_cap {
                 break;
             }
+        }
+    }
+    // thread-local flavour: micro-scenarios (capped DFS) and random ones
+    let (lcap, lrand) = if tier == "thorough" { (150usize, 400usize) } else { (25usize, 60usize) };
+    for (mi, sc) in micro_local().into_iter().enumerate() {
+        let mut ex = Explorer::new(Mode::Dfs { preempt_bound: Some(2) }, seed);
+        let mut n = 0;
+        loop {
+            ex.begin_run();
+            let (evs, meta, bad) = one_run(&sc, &mut ex, json!({"kind": "micro_local", "idx": mi}));
+            let h = b.run(meta, &evs);
+            if ex.nontrivial {
+                nontrivial.insert(h);
+            }
+            if bad {
+                bad_runs += 1;
+            }
+            n += 1;
+            if !ex.end_run() || n >= lcap {
+                break;
+            }
+        }
+    }
+    let mut lrng = Rng(seed ^ 0x6c6f63);
+    for _ in 0..lrand {
+        let gen_state = lrng.0;
+        let sc = rand_scenario_flavour(&mut lrng, true);
+        let mut ex = Explorer::new(Mode::Random, lrng.next());
+        ex.begin_run();
+        let (evs, meta, bad) = one_run(&sc, &mut ex, json!({"kind": "rand_local", "state": gen_state.to_string()}));
+        let h = b.run(meta, &evs);
+        if ex.nontrivial {
+            nontrivial.insert(h);
+        }
+        if bad {
+            bad_runs += 1;
         }
     }
     let mut rng = Rng(seed ^ 0x6c696665);
@@ -739,6 +976,8 @@ pub fn dispatch(cmd: &str, a: &std::collections::HashMap<String, String>) -> Opt
             let sc = match gen.get("kind").and_then(|k| k.as_str()) {
                 Some("micro") => micro_scenarios().into_iter().nth(gen["idx"].as_u64().unwrap_or(0) as usize),
                 Some("rand") => gen["state"].as_str().and_then(|s| s.parse::<u64>().ok()).map(|st| rand_scenario(&mut Rng(st))),
+                Some("rand_local") => gen["state"].as_str().and_then(|s| s.parse::<u64>().ok()).map(|st| rand_scenario_flavour(&mut Rng(st), true)),
+                Some("micro_local") => micro_local().into_iter().nth(gen["idx"].as_u64().unwrap_or(0) as usize),
                 _ => None,
             };
             let Some(sc) = sc else { return Some(json!({"runs": 0, "error": "unknown generator"})) };
